@@ -36,13 +36,20 @@ def judge(job):
         if parser == "lxml":
             import lxml.etree as LE
             root = LE.fromstring(xml.encode())
+        elif parser == "lxmlp":
+            # the document is the PAYLOAD of an envelope: an lxml element that is not the top of its tree; it is
+            # the validated document all the same (error paths start at it)
+            import lxml.etree as LE
+            env = LE.fromstring(f'<env:Envelope xmlns:env="urn:E"><env:Header/><env:Body>{xml}</env:Body>'
+                                f'</env:Envelope>'.encode())
+            root = env[1][0]
         else:
             root = ET.fromstring(xml)
-        if parser == "lxml":
+        if parser in ("lxml", "lxmlp"):
             # lxml elements are proxies re-created on access: locate them through their parents
             def where_of(e):
                 p = []
-                while e.getparent() is not None:
+                while e.getparent() is not None and e != root:
                     par = e.getparent()
                     p.append([c for c in par if isinstance(c.tag, str)].index(e) + 1)
                     e = par
@@ -187,7 +194,7 @@ def run(ctx: Ctx):
         recs = recs[::1]
     jobs = []
     for ver in ("1.0", "1.1", "1.1i"):
-        for parser in ("etree", "lxml"):
+        for parser in ("etree", "lxml", "lxmlp"):
             for i in range(0, len(recs), 100):
                 jobs.append((recs[i:i + 100], ver, parser))
     total = 0
@@ -228,7 +235,7 @@ def run(ctx: Ctx):
     ctx.rule = ("every document of spec/Validator.tla with <= 2 items (flag / note / 0-2 sub quantities) x "
                 "every applicable single deviation (19 kinds: bad value, missing / extra / misplaced child, "
                 "missing / extra / bad attribute, stray text, at item, sub, title or root level); quick takes "
-                "every 3rd; both schema classes (and XSD 1.1 with an inheritable attribute on the root) x ElementTree and lxml parsers; prefixed and default-namespace "
+                "every 3rd; both schema classes (and XSD 1.1 with an inheritable attribute on the root) x ElementTree and lxml parsers (lxml also with the document as the payload of an envelope element); prefixed and default-namespace "
                 "renderings alternate; the same documents as text with the namespace redeclared as default namespace on every "
                 "child of the root (paths resolved with the namespace map the error carries); plus the documents of spec/Identity.tla: every identity-constraint error must select exactly "
                 "its element, which is the offending row / the declaring element / the root")
